@@ -33,15 +33,19 @@ async def s_slots(ctl):
 
 
 SCEN = Scenario("slots", s_slots, users=USERS, server_kwargs={"maximum_connections": 3})
+# the same sessions on a server with speed limits: its command channels wait in their throttles between lines
+SCEN_THROTTLED = Scenario("slots-throttled", s_slots, users=USERS, server_kwargs={"maximum_connections": 3, "read_speed_limit": 300, "write_speed_limit_per_connection": 400})
+SCENS = {"slots": SCEN, "slots-throttled": SCEN_THROTTLED}
 
 
 def _job(args):
-    kind, ks = args
+    kind, ks = args[:2]
+    scen = SCENS[args[2] if len(args) > 2 else "slots"]
     fn = SC.cut_vanish if kind == "vanish" else SC.cut_server_close
     out = []
     for k in ks:
         try:
-            r = SC.run_scenario(SCEN, k, fn)
+            r = SC.run_scenario(scen, k, fn)
         except BaseException as e:  # noqa
             out.append((k, "HARNESS-ERROR %s: %s" % (type(e).__name__, e)))
             continue
@@ -54,7 +58,7 @@ def _job(args):
             if led["ufree"] != [2, 1, None]:
                 bad.append("per-user slots %r, configured [2, 1, None]" % led["ufree"])
         out.append((k, bad))
-    return kind, out
+    return kind, out, (args[2] if len(args) > 2 else "slots")
 
 
 async def _burst_case(loop, limit, n, then_quit):
@@ -217,24 +221,25 @@ def run(ctx):
     res = Result()
     burst(ctx, res)
     tls(ctx, res)
-    N = SC.run_scenario(SCEN)["iterations"]
     jobs = []
-    for kind in ("vanish", "close"):
-        ks = list(range(N))
-        for j in range(0, N, 25):
-            jobs.append((kind, ks[j : j + 25]))
+    for name, scen in SCENS.items():
+        N = SC.run_scenario(scen)["iterations"]
+        for kind in ("vanish", "close"):
+            ks = list(range(N))
+            for j in range(0, N, 25):
+                jobs.append((kind, ks[j : j + 25], name))
     mp = multiprocessing.get_context("fork")
     with mp.Pool(min(16, os.cpu_count() or 4)) as pool:
         outs = pool.map(_job, jobs, chunksize=1)
-    for kind, out in outs:
+    for kind, out, name in outs:
         for k, bad in out:
             res.cases += 1
-            res.count("iteration_cut_" + kind)
-            res.distinct.add(("slots", kind, k))
+            res.count("iteration_cut_%s:%s" % (kind, name))
+            res.distinct.add((name, kind, k))
             if isinstance(bad, str):
-                res.disagreements.append({"correspondence": "slots sweep harness", "input": [kind, k], "impl": bad})
+                res.disagreements.append({"correspondence": "slots sweep harness", "input": [kind, k, name], "impl": bad})
             elif bad:
-                res.oracle_failures.append({"input": {"kind": "iteration-cut", "cut": kind, "iteration": k}, "what": "; ".join(bad), "signature": "C10:slot-not-returned:cut-at-loop-iteration"})
+                res.oracle_failures.append({"input": {"kind": "iteration-cut", "cut": kind, "iteration": k, "scenario": name}, "what": "; ".join(bad) + (" (server with speed limits)" if name != "slots" else ""), "signature": "C10:slot-not-returned:cut-at-loop-iteration"})
     res.exhaustive = True
     return res
 
@@ -253,6 +258,6 @@ def replay(inp):
         print(o)
         n, limit = inp["simultaneous_connects"], inp["maximum_connections"]
         return isinstance(o, str) or o["first"] != sorted(["220"] * min(limit, n) + ["421"] * max(0, n - limit)) or o["lowest_counter"] < 0 or o["free_after"] != limit or o["next"] != "220"
-    kind, out = _job((inp["cut"], [inp["iteration"]]))
+    kind, out, _ = _job((inp["cut"], [inp["iteration"]], inp.get("scenario", "slots")))
     print(out)
     return bool(out[0][1])
